@@ -168,6 +168,13 @@ Example C14_example_enc_err_and_zero :
      (RWriteZero, [EvWrite [1]; EvWZero], false, false); (ROk, [EvWrite [98]; EvFlush FOk], true, false)].
 Proof. vm_compute. reflexivity. Qed.
 
+(* Conversions of a Framed that carry its buffers over (from_parts(into_parts()), into_map_io, into_map_codec, replace_codec)
+   are the model's OConv: they may be interleaved with the Sink calls anywhere — C14_lossless, C14_lossless_prefix, C14_complete
+   quantify over ALL sequences of wop, OConv included — and by themselves change nothing and reach no transport. *)
+Theorem C14_conv : forall (I : Type) (encode : I -> list Z -> bool * list Z) st,
+  wstep encode st OConv = (ROk, st, []).
+Proof. exact conv_noop. Qed.
+
 Print Assumptions C14_lossless.
 Print Assumptions C14_lossless_prefix.
 Print Assumptions C14_flush_ok.
@@ -183,3 +190,4 @@ Print Assumptions C14_write_zero_first.
 Print Assumptions C14_lines_enc_law.
 Print Assumptions C14_bytes_enc_law.
 Print Assumptions C14_lp_enc_law.
+Print Assumptions C14_conv.
